@@ -216,17 +216,23 @@ def check_C19(chk: Check, replay) -> None:
                        "every completed clean call is judged against F(class, value) by CodecTrace")
     thorough = chk.tier == "thorough"
     # ---- model checking: the design, the two seeded designs (must fail), liveness
-    for cfg, must_fail in (("MC_Registry.cfg" if thorough else "MC_Registry_quick.cfg", False),
-                           ("MC_Registry_neg1.cfg", True), ("MC_Registry_neg2.cfg", True)):
-        res = tlc.run_tlc("Registry", cfg=cfg, workers=16, timeout=4 * 3600, xmx="16g", coverage=not must_fail)
+    # the quick and the eviction configurations always run, with TLC's action coverage (every action of
+    # the next-state relation must have been taken; Start is reported by TLC under Next); thorough adds
+    # the full configuration
+    COV = {"MC_Registry_quick.cfg": ["Next", "BuildStep", "UseStep", "Fail", "Finish"],
+           "MC_Registry_evict.cfg": ["Next", "BuildStep", "UseStep", "Fail", "Finish", "Evict"]}
+    for cfg, must_fail in ([("MC_Registry_quick.cfg", False), ("MC_Registry_evict.cfg", False)]
+                           + ([("MC_Registry.cfg", False)] if thorough else [])
+                           + [("MC_Registry_neg1.cfg", True), ("MC_Registry_neg2.cfg", True)]):
+        res = tlc.run_tlc("Registry", cfg=cfg, workers=16, timeout=4 * 3600, xmx="16g", coverage=cfg in COV)
         violated = "Invariant ResultIsFunction is violated" in res["out"]
         if must_fail and not violated:
             raise Machinery(f"{cfg}: TLC found no counterexample for a shared staging buffer - the model's "
                             f"histories/interleavings are too poor:\n{res['out'][-1200:]}")
         if not must_fail and not tlc.tlc_ok(res):
             raise Machinery(f"{cfg} failed:\n{res['out'][-2000:]}")
-        if not must_fail:
-            tlc.require_actions(res, ["Start", "BuildStep", "UseStep", "Fail", "Finish", "Evict"], f"Registry/{cfg}")
+        if cfg in COV:
+            tlc.require_actions(res, COV[cfg], f"Registry/{cfg}")
         chk.add_tlc(f"Registry/{cfg}", res)
     res = tlc.run_tlc("Registry", cfg="MC_Registry_live.cfg", workers=4, timeout=3000, xmx="8g")
     if not tlc.tlc_ok(res):
